@@ -68,8 +68,10 @@ AFill(a, slot, stamp) ==
     ELSE IF ~\E i \in 1..Len(a.ho) : a.ho[i] = <<slot, NONE>> THEN Flag(a, "harness_fill_protocol")
     ELSE [a EXCEPT !.ho = [i \in 1..Len(@) |-> IF @[i] = <<slot, NONE>> THEN <<slot, stamp>> ELSE @[i]]]
 
-\* flush_submission_queue returned r; afterwards the kernel side sees kavail entries to consume
-\* (the return value itself is not constrained by the property statement)
+\* flush_submission_queue returned r; afterwards the kernel side sees kavail entries to consume.
+\* r is the number the caller hands to io_uring_enter as to_submit: it must be every entry published and not yet
+\* consumed (tail - kernel head at that moment), else published entries are never handed to the kernel (e.g. when an
+\* earlier flush's entries are still pending, or on the retry after a failed io_uring_enter)
 AFlush(a, r, kavail) ==
     IF Frozen(a) THEN a
     ELSE IF r = PANIC THEN Flag(a, "panic_flush")
@@ -77,7 +79,16 @@ AFlush(a, r, kavail) ==
     ELSE LET sq2 == a.sq \o a.ho IN
          IF kavail < Len(sq2) THEN Flag(a, "flushed_entry_not_visible_to_kernel")
          ELSE IF kavail > Len(sq2) THEN Flag(a, "kernel_sees_entry_never_flushed")
+         ELSE IF r # Len(sq2) THEN Flag(a, "flush_did_not_return_the_number_of_unconsumed_entries")
          ELSE [a EXCEPT !.sq = sq2, !.ho = <<>>]
+
+\* needs_wakeup() with the submission ring's flags word holding `flags`: the test of IORING_SQ_NEED_WAKEUP (bit 0),
+\* whatever the other bits (IORING_SQ_CQ_OVERFLOW = 2, IORING_SQ_TASKRUN = 4) say - an idle polling thread that is not
+\* woken never consumes what was flushed
+AWakeup(a, flags, ret) ==
+    IF Frozen(a) THEN a
+    ELSE IF ret # ((flags % 2) = 1) THEN Flag(a, "needs_wakeup_is_not_the_need_wakeup_bit")
+    ELSE a
 
 \* the kernel consumed Len(stamps) entries and read these contents, in ring order
 AConsume(a, stamps) ==
@@ -114,6 +125,7 @@ ARead(a, stamp) ==
 
 Clauses == {"index_array_does_not_name_the_slots", "panic_get_slot", "slot_refused_while_ring_not_full", "get_slot_pointer_outside_ring",
             "slot_handed_out_before_consumed", "panic_flush", "flushed_entry_not_visible_to_kernel",
+            "flush_did_not_return_the_number_of_unconsumed_entries", "needs_wakeup_is_not_the_need_wakeup_bit",
             "kernel_sees_entry_never_flushed", "kernel_consumed_entry_never_flushed",
             "consumed_wrong_entry_or_order", "panic_reap", "none_returned_while_completion_pending",
             "reap_pointer_outside_ring", "completion_returned_that_was_not_posted",
